@@ -603,6 +603,178 @@ from .c19_tee import run_tee, replay_tee  # noqa: E402
 # --------------------------------------------------------------------------- run
 
 
+def run_odd_equality(res: Result) -> None:
+    """Elements whose equality is not the textbook one: the same NaN object repeated, objects whose
+    __eq__ is never true, objects whose __ne__ disagrees with __eq__.  The Lean models assume lawful
+    equality, so these inputs are compared against the standard library only (oracle leg); found
+    F12 (groupby compared with != instead of identity-then-==)."""
+    import itertools as std
+
+    nan = float("nan")
+
+    class NeverEq:
+        def __eq__(self, o: object) -> bool:
+            return False
+
+        def __hash__(self) -> int:
+            return 1
+
+    class NeAlwaysFalse:
+        def __init__(self, v: int) -> None:
+            self.v = v
+
+        def __eq__(self, o: object) -> bool:
+            return isinstance(o, NeAlwaysFalse) and o.v == self.v
+
+        def __ne__(self, o: object) -> bool:
+            return False
+
+        def __hash__(self) -> int:
+            return self.v
+
+    k = NeverEq()
+    a1, a2 = NeAlwaysFalse(1), NeAlwaysFalse(2)
+    pools = [[nan, 1], [k, 1], [a1, a2, NeAlwaysFalse(1)]]
+
+    async def groups(data: list, source: str) -> list:
+        it = data if source == "sync" else _agen(list(data), False)
+        return [(id(key), [id(x) for x in vals]) async for key, vals in ai.groupby(it)]
+
+    for pool in pools:
+        for n in range(0, 5):
+            for idx in itertools.product(range(len(pool)), repeat=n):
+                data = [pool[i] for i in idx]
+                want = [(id(key), [id(x) for x in vals]) for key, vals in std.groupby(data)]
+                for source in ("sync", "async"):
+                    got = anyio.run(groups, data, source)
+                    res.evaluations += 1
+                    res.stats["odd_equality_cases"] = res.stats.get("odd_equality_cases", 0) + 1
+                    if got != want:
+                        res.violations.append(Violation(
+                            {"groupby_odd_equality": [type(x).__name__ for x in data], "source": source},
+                            f"groupby over {len(data)} elements with non-textbook equality "
+                            f"({[type(x).__name__ for x in data]}) yields {len(got)} groups, "
+                            f"itertools.groupby {len(want)}", "C19:groupby-odd-equality"))
+                        return
+
+
+def run_partial_callbacks(res: Result) -> None:
+    """Callbacks that are not total or not pure: a predicate that raises on a poison element and
+    records every call.  The standard library fixes how often and on which elements the callback is
+    invoked; anyio must agree on the yielded prefix, the error class AND the calls made."""
+    import itertools as std
+
+    POISON = "z"
+
+    def mk():
+        calls: list = []
+
+        def pred(x: Any) -> bool:
+            calls.append(x)
+            if x == POISON:
+                raise TypeError("poison")
+            return x < 3
+
+        async def apred(x: Any) -> bool:
+            return pred(x)
+
+        return calls, pred, apred
+
+    def drain_std(it: Any) -> tuple[list, str | None]:
+        out: list = []
+        try:
+            for x in it:
+                out.append(x)
+        except Exception as e:  # noqa: BLE001
+            return out, type(e).__name__
+        return out, None
+
+    async def drain_any(it: Any) -> tuple[list, str | None]:
+        out: list = []
+        try:
+            async for x in it:
+                out.append(x)
+        except Exception as e:  # noqa: BLE001
+            return out, type(e).__name__
+        return out, None
+
+    fns = {
+        "dropwhile": (lambda p, d: std.dropwhile(p, d), lambda p, d: ai.dropwhile(p, d)),
+        "takewhile": (lambda p, d: std.takewhile(p, d), lambda p, d: ai.takewhile(p, d)),
+        "filterfalse": (lambda p, d: std.filterfalse(p, d), lambda p, d: ai.filterfalse(p, d)),
+    }
+    alpha = [0, 1, 5, POISON]
+    for name, (fs, fa) in fns.items():
+        for n in range(0, 5):
+            for data in itertools.product(alpha, repeat=n):
+                data = list(data)
+                c1, p1, _ = mk()
+                want = drain_std(fs(p1, data))
+                for source in ("sync", "async"):
+                    c2, _, ap2 = mk()
+                    srcobj = data if source == "sync" else _agen(list(data), False)
+                    got = anyio.run(drain_any, fa(ap2, srcobj))
+                    res.evaluations += 1
+                    res.stats["partial_callback_cases"] = res.stats.get("partial_callback_cases", 0) + 1
+                    if got != want or c2 != c1:
+                        res.violations.append(Violation(
+                            {"partial_callback": name, "data": data, "source": source},
+                            f"{name} with a non-total predicate over {data}: anyio yields {got} with predicate "
+                            f"calls {c2}, itertools yields {want} with calls {c1}", f"C19:{name}-callback-calls"))
+                        return
+
+
+def run_cancel_retry(res: Result) -> None:
+    """A consumer whose `anext` is interrupted by a cancellation and who then simply calls it again
+    must not lose an element of a synchronous source: the element is pulled from the source before
+    the (shielded) checkpoint.  Sweeps the cancellation over every scheduling point."""
+    from anyio import CancelScope
+
+    async def sweep(ncons: int, data: list, at: int) -> list[list]:
+        its = ai.tee(list(data), ncons)
+        seen: list[list] = [[] for _ in its]
+        cur: list[Any] = [None] * ncons
+
+        async def consume(i: int) -> None:
+            while True:
+                with CancelScope() as sc:
+                    cur[i] = sc
+                    try:
+                        x = await anext(its[i])
+                    except StopAsyncIteration:
+                        return
+                    seen[i].append(x)
+
+        async def controller() -> None:
+            for _ in range(at):
+                await asyncio.sleep(0)
+            if cur[0] is not None:
+                cur[0].cancel()
+
+        async with anyio.create_task_group() as tg:
+            for i in range(ncons):
+                tg.start_soon(consume, i)
+            tg.start_soon(controller)
+        return seen
+
+    data = ["a", "b", "c", "d"]
+    for ncons in (1, 2, 3):
+        for at in range(0, 16):
+            try:
+                seen = anyio.run(sweep, ncons, data, at)
+            except BaseException as e:  # noqa: BLE001
+                seen = [[f"raised {type(e).__name__}"]]
+            res.evaluations += 1
+            res.stats["cancel_retry_cases"] = res.stats.get("cancel_retry_cases", 0) + 1
+            if any(s_ != data for s_ in seen):
+                res.violations.append(Violation(
+                    {"tee_cancel_retry": {"consumers": ncons, "cancel_after_yields": at}},
+                    f"tee over the synchronous list {data} with {ncons} consumer(s), consumer 0 cancelled once "
+                    f"after {at} scheduling steps and retrying: consumers observed {seen}",
+                    "C19:element-lost-on-cancelled-anext"))
+                return
+
+
 def run(ctx: Ctx) -> Result:
     res = Result(rule="per function: all element sequences over {0,1,2} up to length 5 (quick) / 7 "
                       "(thorough) x all small parameters -2..7 and None x a fixed family of pure "
@@ -626,6 +798,9 @@ def run(ctx: Ctx) -> Result:
     else:
         run_iter(ctx, res, now + 0.62 * budget)
         run_tee(ctx, res, tee_corpus, now + budget)
+    run_odd_equality(res)
+    run_partial_callbacks(res)
+    run_cancel_retry(res)
     # the smallest failing input of every kind first (check_main reports one per signature)
     res.violations.sort(key=lambda v: len(repr(v.case)))
     res.disagreements.sort(key=lambda d: len(repr(d.case)))
